@@ -84,7 +84,7 @@ class ExprMixin:
                 # module-level singletons: logger, s3 = S3(), main = CLI()
                 return SModule('%s.%s' % (module, n))
         if n in ('len', 'enumerate', 'list', 'tuple', 'type', 'int', 'float', 'sum', 'all', 'any', 'sorted',
-                 'print', 'str', 'open', 'super', 'isinstance', 'bool', 'set', 'dict', 'range'):
+                 'print', 'str', 'open', 'super', 'isinstance', 'issubclass', 'bool', 'set', 'dict', 'range'):
             return SFunc(None, builtin=n)
         if n in BUILTIN_EXC_BASES:
             return SCls(n)
